@@ -7,7 +7,13 @@ class DeferredCycle(Exception):
 
 
 def wait(deferred):
+    seen = set()
     while isinstance(deferred, BaseDeferred):
+        # 'a = a' or 'a = b' / 'b = a' settle on each other: that is a cycle
+        # too, although no wait() call is ever nested inside another one
+        if id(deferred) in seen:
+            raise DeferredCycle()
+        seen.add(id(deferred))
         deferred = deferred.wait()
     return deferred
 
